@@ -349,7 +349,11 @@ class Derivation(Constraint):
                             ok = False
                             break
                     else:
-                        new_x = x + ((t + delta) * window.stride * get_trial_size(x) + 1)
+                        if x < block.grid_variables():
+                            # grid variable (shifted per window position): the window ends at trial `n`
+                            new_x = x + (n - (window.width - 1) * sustain_count) * trial_size + 1
+                        else:
+                            new_x = x + ((t + delta) * window.stride * get_trial_size(x) + 1)
                         if new_x <= 0:
                             ok = False
                             break
